@@ -1014,8 +1014,58 @@ func (c *DefaultCtx) Method(override ...string) string {
 		// Provided override does not valid HTTP method, no override, return current method
 		return c.app.method(c.methodInt)
 	}
+	oldMethodInt := c.methodInt
 	c.methodInt = methodInt
+	c.reseatIndexRoute(oldMethodInt, c.treePathHash)
 	return method
+}
+
+// reseatIndexRoute translates the route cursor from the route tree it was an index into to the tree
+// that the following lookups use after a handler has overridden the path or the method, so that the
+// rest of the chain is the routes registered after the current one. Within one method the registration
+// position is kept; positions of different methods are not comparable, there the number of middleware
+// routes already passed is kept (middleware is registered for every method).
+func (c *DefaultCtx) reseatIndexRoute(oldMethodInt, oldTreePathHash int) {
+	if c.route == nil || c.indexRoute < 0 {
+		return
+	}
+	oldTree, ok := c.app.treeStack[oldMethodInt][oldTreePathHash]
+	if !ok {
+		oldTree = c.app.treeStack[oldMethodInt][0]
+	}
+	tree, ok := c.app.treeStack[c.methodInt][c.treePathHash]
+	if !ok {
+		tree = c.app.treeStack[c.methodInt][0]
+	}
+	if c.indexRoute >= len(oldTree) {
+		c.indexRoute = len(tree) - 1
+		return
+	}
+	idx := -1
+	if oldMethodInt == c.methodInt {
+		pos := oldTree[c.indexRoute].pos
+		for i, route := range tree {
+			if route.pos > pos {
+				break
+			}
+			idx = i
+		}
+		c.indexRoute = idx
+		return
+	}
+	passed := 0
+	for i := 0; i <= c.indexRoute; i++ {
+		if oldTree[i].use {
+			passed++
+		}
+	}
+	for i := 0; i < len(tree) && passed > 0; i++ {
+		if tree[i].use {
+			passed--
+		}
+		idx = i
+	}
+	c.indexRoute = idx
 }
 
 // MultipartForm parse form entries from binary.
@@ -1130,7 +1180,9 @@ func (c *DefaultCtx) Path(override ...string) string {
 		// Set new path to request context
 		c.fasthttp.Request.URI().SetPath(c.pathOriginal)
 		// Prettify path
+		oldTreePathHash := c.treePathHash
 		c.configDependentPaths()
+		c.reseatIndexRoute(c.methodInt, oldTreePathHash)
 	}
 	return c.app.getString(c.path)
 }
